@@ -445,6 +445,11 @@ CORPUS["C17"] = [
 ]
 
 CORPUS["C18"] = [
+    M("HDF5 grids identified by file name only when a path is given", (GRID, "registry.register_identifier(\"hdf5\", NssGrid, hdf5.is_hdf5)", "def _is_h5(origin, filepath, fileobj, *args, **kwargs):\n    if filepath is not None:\n        return str(filepath).lower().endswith((\".h5\", \".hdf5\"))\n    return hdf5.is_hdf5(origin, filepath, fileobj, *args, **kwargs)\n\nregistry.register_identifier(\"hdf5\", NssGrid, _is_h5)")),
+    M("HDF5 identifier registered for the FITS checker", (GRID, "registry.register_identifier(\"hdf5\", NssGrid, hdf5.is_hdf5)", "registry.register_identifier(\"hdf5\", NssGrid, fits.connect.is_fits)")),
+    B("HDF5 identifier: known extensions say yes, everything else asks the library", (GRID, "registry.register_identifier(\"hdf5\", NssGrid, hdf5.is_hdf5)", "def _is_h5(origin, filepath, fileobj, *args, **kwargs):\n    if filepath is not None and str(filepath).lower().endswith((\".h5\", \".hdf5\")):\n        return True\n    return hdf5.is_hdf5(origin, filepath, fileobj, *args, **kwargs)\n\nregistry.register_identifier(\"hdf5\", NssGrid, _is_h5)")),
+    B("HDF5 identifier: thin wrapper of the library identifier", (GRID, "registry.register_identifier(\"hdf5\", NssGrid, hdf5.is_hdf5)", "def _is_h5(origin, filepath, fileobj, *args, **kwargs):\n    return hdf5.is_hdf5(origin, filepath, fileobj, *args, **kwargs)\n\nregistry.register_identifier(\"hdf5\", NssGrid, _is_h5)")),
+    B("HDF5 identifier reads the signature itself", (GRID, "registry.register_identifier(\"hdf5\", NssGrid, hdf5.is_hdf5)", "def _is_h5(origin, filepath, fileobj, *args, **kwargs):\n    if fileobj is not None:\n        loc = fileobj.tell()\n        try:\n            sig = fileobj.read(8)\n        finally:\n            fileobj.seek(loc)\n        return sig == b\"\\x89HDF\\r\\n\\x1a\\n\"\n    return hdf5.is_hdf5(origin, filepath, fileobj, *args, **kwargs)\n\nregistry.register_identifier(\"hdf5\", NssGrid, _is_h5)")),
     M("sub-grid: names kept under a weaker test than the axes",
       (GRID, "                self.axis_names[i]\n                for i, s in enumerate(item)\n                if np.count_nonzero(s) > 1 or isinstance(s, slice)",
        "                self.axis_names[i]\n                for i, s in enumerate(item)\n                if np.count_nonzero(s) > 0 or isinstance(s, slice)")),
